@@ -110,7 +110,7 @@ def run_engine(c, pid):
     counts = {}
     for name, args in plan:
         prefix = os.path.join(c.scratch, "w_" + name)
-        shards = NCPU * (4 if thorough else 1)
+        shards = NCPU * (16 if thorough else 1)
         out = json.loads(c.vh(["wrap"] + args + [prefix, shards], timeout=7200).stdout)
         counts[name] = out
         traces += ["%s.%02d.ndjson" % (prefix, i) for i in range(shards)]
@@ -122,7 +122,7 @@ def run_engine(c, pid):
     c.extra["generated"] = counts
     res = c.validate("WrapV", traces, timeout=7200, heap="6g", par=NCPU)
     collect(c, pid, res)
-    c.exhaustive = thorough  # the quick tier samples (config, width) combinations of the longest texts by seed
+    c.exhaustive = False  # exhaustive up to N=3 (thorough) / N=2 (quick); the longest texts are sampled by seed: the quick tier samples (config, width) combinations of the longest texts by seed
     # samples
     with open(traces[0]) as fh:
         for i, line in enumerate(fh):
